@@ -37,7 +37,8 @@ def payload(name, mid=1):
     return M.MessageHeader(1_700_000_000, mid, 0, 99).serialize() + menu()[name].serialize()
 
 
-def frame(pl, length=None, magic=MAGIC):
+def frame(pl, length=None, magic=None):
+    magic = MAGIC if magic is None else magic
     return magic + struct.pack(">I", len(pl) if length is None else length) + pl
 
 
@@ -57,7 +58,8 @@ def decode_payload(pl):
 SMALL_MAX = 400     # seam value of MAX_MESSAGE_SIZE for the streams that contain frames of exactly / almost the maximum size
 
 
-def reference_framer(stream, MAXLEN=MAXLEN):
+def reference_framer(stream, MAXLEN=None):
+    MAXLEN = MAXLEN if MAXLEN is not None else globals()['MAXLEN']
     """-> (list of dispatched (hdr, msg), refusal index or None).  refusal index = index of the byte whose arrival
     completes the offending field / payload"""
     out = []
@@ -232,8 +234,11 @@ def _worker(arg):
 def run(ctx):
     from .. import seams
     import skepticoin.networking.remote_peer as rp
-    if rp.MAGIC != MAGIC or rp.MAX_MESSAGE_SIZE != MAXLEN:
-        ctx.violation('constants', "MAGIC / MAX_MESSAGE_SIZE changed: %r %r" % (rp.MAGIC, rp.MAX_MESSAGE_SIZE), {'name': None})
+    # the property does not fix the magic or the size limit: take them from the tree under test
+    global MAGIC, MAXLEN
+    import skepticoin.networking.params as netparams
+    MAGIC = rp.MAGIC
+    MAXLEN = netparams.MAX_MESSAGE_SIZE
     sts = streams(ctx)
     maxlen3 = 330 if ctx.quick else 520
     jobs = [(nm, s, len(s) <= maxlen3 or nm.startswith('max:hello')) for nm, s in sts]
